@@ -4,6 +4,7 @@
   definition equal to the hand-written model (CRModel/Geom.lean, CRModel/Index.lean) the C06 theorems are about — for all
   arguments. GEOS / STRtree predicates (`env`, `isects`, `within`, `ptIn`, `norm`) are parameters on both sides, as in the
   model. A source edit that changes what one of these functions computes breaks a `tie_*` theorem at build time.
+  `find_lanelet_by_position` is among them (`tie_find_lanelet_by_position`); no target of src_c06.py is pending.
 -/
 import Gen.SrcC06
 import CRModel.Index
@@ -185,6 +186,181 @@ theorem tie_find_lanelet_by_shape_group (env isects : List Pt → Prim → Bool)
     | ok ids =>
       simp only [bind, Except.bind, pure, Except.pure] at ih ⊢
       exact ih _
+
+
+/-! ### find_lanelet_by_position -/
+
+/-- one pass of the loop over the (input index, tree index) pairs handed out by the `dwithin` query -/
+def posStep (n : Net) (dd : List (Int × List Int)) (x : Int × Int) : Res (List (Int × List Int)) :=
+  treeGeom n.tree x.2 >>= fun g => idOfPoly n g >>= fun i => pure (ddAppend dd x.1 i)
+
+/-- the pairs of ONE query point (input index `k`), started anywhere in the tree -/
+theorem pos_inner (W : List Pt → Pt → Bool) (n : Net) (p : Pt) (k : Int) (all : List PolyObj) (hT : n.tree = some all) :
+    ∀ (gs pre : List PolyObj) (dd : List (Int × List Int)), all = pre ++ gs →
+      (((gs.zipIdx pre.length).filter (fun e => W e.1.ring p)).map (fun e => (k, (e.2 : Int)))).foldlM (posStep n) dd
+      = (fun ids => ids.foldl (fun d i => ddAppend d k i) dd) <$> (gs.filter (fun g => W g.ring p)).mapM (idOfPoly n) := by
+  intro gs
+  induction gs with
+  | nil => intro pre dd _; simp
+  | cons g gs ih =>
+    intro pre dd hall
+    have hall' : all = (pre ++ [g]) ++ gs := by simp [hall]
+    have ih' := ih (pre ++ [g])
+    simp only [List.length_append, List.length_cons, List.length_nil, Nat.zero_add] at ih'
+    simp only [List.zipIdx_cons, List.filter_cons]
+    by_cases he : W g.ring p = true
+    · have hg : treeGeom n.tree (pre.length : Int) = .ok g := by
+        simp only [treeGeom, hT, hall]; exact getItem_mid pre g gs
+      simp only [he, if_true, List.map_cons, List.foldlM_cons, posStep, hg]
+      cases hid : idOfPoly n g with
+      | error e => simp [hid, List.mapM_cons, bind, Except.bind, Functor.map, Except.map]
+      | ok i =>
+        have := ih' (ddAppend dd k i) hall'
+        simp only [hid, posStep, List.mapM_cons, bind, Except.bind, pure, Except.pure] at this ⊢
+        rw [this]
+        cases (gs.filter (fun g => W g.ring p)).mapM (idOfPoly n) <;> simp [Functor.map, Except.map]
+    · have he' : W g.ring p = false := Bool.eq_false_iff.2 he
+      simp only [he', Bool.false_eq_true, if_false]
+      exact ih' dd hall'
+
+/-- `lanelet_ids[k].append(i)` for the rows of consecutive input indices `j, j+1, …` -/
+def addRows (dd : List (Int × List Int)) : Nat → List (List Int) → List (Int × List Int)
+  | _, [] => dd
+  | j, r :: rs => addRows (r.foldl (fun d i => ddAppend d (j : Int) i) dd) (j + 1) rs
+
+/-- all pairs of the query, point after point -/
+theorem pos_outer (W : List Pt → Pt → Bool) (n : Net) (all : List PolyObj) (hT : n.tree = some all) :
+    ∀ (pts : List Pt) (j : Nat) (dd : List (Int × List Int)),
+      ((pts.zipIdx j).flatMap (fun pi =>
+          (all.zipIdx.filter (fun e => W e.1.ring pi.1)).map (fun e => ((pi.2 : Int), (e.2 : Int))))).foldlM (posStep n) dd
+      = (fun rows => addRows dd j rows) <$> pts.mapM (fun p => (all.filter (fun g => W g.ring p)).mapM (idOfPoly n)) := by
+  intro pts
+  induction pts with
+  | nil => intro j dd; simp [addRows]
+  | cons p ps ih =>
+    intro j dd
+    have hin := pos_inner W n p (j : Int) all hT all [] dd (by simp)
+    simp only [List.length_nil] at hin
+    simp only [List.zipIdx_cons, List.flatMap_cons, List.foldlM_append, hin, List.mapM_cons]
+    cases (all.filter (fun g => W g.ring p)).mapM (idOfPoly n) with
+    | error e => simp [bind, Except.bind, Functor.map, Except.map]
+    | ok ids =>
+      have := ih (j + 1) (ids.foldl (fun d i => ddAppend d (j : Int) i) dd)
+      simp only [bind, Except.bind, Functor.map, Except.map, pure, Except.pure] at this ⊢
+      rw [this]
+      cases ps.mapM (fun p => (all.filter (fun g => W g.ring p)).mapM (idOfPoly n)) <;> simp [addRows]
+
+theorem ddGet_append (m : List (Int × List Int)) (k k' : Int) (v : Int) :
+    ddGet (ddAppend m k v) k' = if k = k' then ddGet m k' ++ [v] else ddGet m k' := by
+  induction m with
+  | nil =>
+    by_cases h : k = k' <;> simp [ddAppend, ddGet, h]
+  | cons e m ih =>
+    obtain ⟨k0, vs⟩ := e
+    by_cases h0 : k0 = k
+    · by_cases h : k = k'
+      · subst h0; subst h; simp [ddAppend, ddGet]
+      · have : ¬ k0 = k' := fun e => h (h0 ▸ e)
+        simp [ddAppend, ddGet, h0, h]
+    · by_cases h1 : k0 = k'
+      · by_cases h : k = k'
+        · exact absurd (h1.trans h.symm) h0
+        · subst h1
+          simp [ddAppend, ddGet, h0, h]
+      · have := ih
+        simp only [ddGet] at this
+        simp [ddAppend, ddGet, h0, h1, this]
+
+theorem ddGet_foldl (ids : List Int) (k k' : Int) : ∀ (dd : List (Int × List Int)),
+    ddGet (ids.foldl (fun d i => ddAppend d k i) dd) k' = if k = k' then ddGet dd k' ++ ids else ddGet dd k' := by
+  induction ids with
+  | nil => intro dd; by_cases h : k = k' <;> simp [h]
+  | cons i is ih =>
+    intro dd
+    simp only [List.foldl_cons, ih, ddGet_append]
+    by_cases h : k = k' <;> simp [h]
+
+theorem ddGet_addRows_lt : ∀ (rows : List (List Int)) (j : Nat) (dd : List (Int × List Int)) (k : Nat), k < j →
+    ddGet (addRows dd j rows) (k : Int) = ddGet dd (k : Int) := by
+  intro rows
+  induction rows with
+  | nil => intro j dd k _; rfl
+  | cons r rs ih =>
+    intro j dd k hk
+    simp only [addRows]
+    rw [ih (j + 1) _ k (by omega), ddGet_foldl]
+    have : ¬ ((j : Int) = (k : Int)) := by omega
+    simp [this]
+
+theorem addRows_get : ∀ (rows : List (List Int)) (pts : List Pt) (j : Nat) (dd : List (Int × List Int)),
+    pts.length = rows.length → (∀ k : Nat, j ≤ k → ddGet dd (k : Int) = []) →
+    (pts.zipIdx j).map (fun e => ddGet (addRows dd j rows) (e.2 : Int)) = rows := by
+  intro rows
+  induction rows with
+  | nil => intro pts j dd hl _; cases pts with
+    | nil => rfl
+    | cons _ _ => simp at hl
+  | cons r rs ih =>
+    intro pts j dd hl hdd
+    cases pts with
+    | nil => simp at hl
+    | cons p ps =>
+      simp only [List.zipIdx_cons, List.map_cons, addRows]
+      rw [ddGet_addRows_lt rs (j + 1) _ j (by omega), ddGet_foldl, ih ps (j + 1) _ (by simpa using hl)]
+      · simp [hdd j (Nat.le_refl _)]
+      · intro k hk
+        rw [ddGet_foldl]
+        have : ¬ ((j : Int) = (k : Int)) := by omega
+        simp [this, hdd k (by omega)]
+
+theorem mapM_ok_length {α β} (f : α → Res β) : ∀ (xs : List α) (ys : List β), xs.mapM f = .ok ys → xs.length = ys.length := by
+  intro xs
+  induction xs with
+  | nil => intro ys h; simp [pure, Except.pure] at h; subst h; rfl
+  | cons x xs ih =>
+    intro ys h
+    simp only [List.mapM_cons, bind, Except.bind] at h
+    cases hx : f x with
+    | error e => simp [hx] at h
+    | ok y =>
+      cases hxs : xs.mapM f with
+      | error e => simp [hx, hxs] at h
+      | ok ys' =>
+        simp [hx, hxs, pure, Except.pure] at h
+        subst h
+        simp [ih ys' hxs]
+
+/-- `find_lanelet_by_position` of the current source — `[]` for an empty point list before the tree is touched, else ONE
+    `dwithin` query for all points (tolerance 1e-15), the pairs (input index, tree index) turned into ids through
+    `tree.geometries` and the reverse map, grouped per input index in a defaultdict, read out in input order — is the
+    model's `findByPosition` with `within (1e-15)` (with `within = treeWithin`, the predicate of `C06_find_position`). -/
+theorem tie_find_lanelet_by_position (within : Rat → List Pt → Pt → Bool) (n : Net) (pts : List Pt) :
+    Gen.LaneletNetwork_find_lanelet_by_position within n pts
+      = findByPosition (within (1 / 1000000000000000 : Rat)) n pts := by
+  unfold Gen.LaneletNetwork_find_lanelet_by_position findByPosition
+  cases pts with
+  | nil => simp [pure, Except.pure]
+  | cons p ps =>
+    rw [if_neg (by simp only [decide_eq_true_eq, List.length_cons]; omega)]
+    simp only []
+    cases hT : n.tree with
+    | none => simp [strQueryDwithin, bind, Except.bind]
+    | some all =>
+      have key := pos_outer (within (1 / 1000000000000000 : Rat)) n all hT (p :: ps) 0 []
+      have hstep : posStep n = fun dd x =>
+          (treeGeom (some all) x.2 >>= fun g => idOfPoly n g >>= fun i => pure (ddAppend dd x.1 i)) := by
+        funext dd x; simp only [posStep, hT]
+      rw [hstep] at key
+      simp only [bind, Except.bind, pure, Except.pure] at key
+      simp only [strQueryDwithin, lfoldlM, lmap, List.map_id', bind, Except.bind, pure, Except.pure, hT, tie_get_lanelet_id]
+      rw [key]
+      cases hm : (p :: ps).mapM (fun p => (all.filter (fun g => within (1 / 1000000000000000 : Rat) g.ring p)).mapM (idOfPoly n)) with
+      | error e => simp [Functor.map, Except.map]
+      | ok rows =>
+        have hl := mapM_ok_length _ _ _ hm
+        have := addRows_get rows (p :: ps) 0 [] hl (fun k _ => rfl)
+        simp only [Functor.map, Except.map, enumerate, List.map_map, Function.comp_def]
+        exact congrArg Except.ok this
 
 /-! ### shapes (shape.py) -/
 
